@@ -274,6 +274,15 @@ def run(ctx):
         C.correspond(ctx, "malformed-" + mode, bad, [exe], drv,
                      lambda c, o: None if o == "bad-op" else "malformed case accepted",
                      lambda c, o, why: {"op": "parse", "kind": "malformed"})
+        # needs_wakeup over every combination of the low flag bits and single high bits
+        wakes = ["wake %d" % v for v in sorted(set(list(range(16)) + [1 << k for k in range(32)] + [(1 << k) | 1 for k in range(32)]
+                                                     + [0xFFFFFFFF, 0xFFFFFFFE] + [ctx.rng.next() % (1 << 32) for _ in range(40)]))]
+        C.correspond(ctx, "wakeup-" + mode, wakes, [exe], drv,
+                     lambda c, o: None if o == ("w1" if int(c.split()[1]) & 1 else "w0") else
+                     "needs_wakeup() = %s with the SQ flags word %#x (IORING_SQ_NEED_WAKEUP %s): an application following the SQPOLL wake-up protocol %s" % (
+                         o, int(c.split()[1]), "set" if int(c.split()[1]) & 1 else "clear",
+                         "never wakes the idle kernel thread, its flushed entries are never consumed" if int(c.split()[1]) & 1 else "enters the kernel needlessly"),
+                     lambda c, o, why: {"op": "needs_wakeup", "kind": "wrong-answer"})
         # the assumption "identity sq_array, as setup_io_uring writes it", observed on the running kernel
         probes = ["sqarray %d %d" % (e, f) for e in ([1, 2, 3, 8, 64, 100] if quick else [1, 2, 3, 4, 5, 8, 16, 64, 100, 1000, 4096])
                   for f in (0, 1 << 10, 1 << 11)]
